@@ -193,7 +193,8 @@ CHECKS = {
              "get_state/from_state transfer (direct and pickled) over kinds x 2 sessions x 2 colliding regions x flags x modification subsets; every item sequence up to "
              "length 3 (4 thorough) through the real IPCInterceptionAddon._pump_callbacks counting resume() calls.",
         note="A taken, never-resumed flow stays with its taker; faults are Python exceptions at the listed points; pickling/OS-queue failure, a real mitmproxy master, TLS "
-             "and sockets are out of scope; mitmproxy.ctx.master stubbed for replay/shutdown; ownership is per flow (first successful take() until the one successful resume())."),
+             "and sockets are out of scope; mitmproxy.ctx.master stubbed for replay/shutdown; ownership is per flow (first successful take() until the one successful resume()); "
+             "includes the owner of a taken flow's cap data (region/session) being dropped and garbage-collected before release."),
     "C17": dict(
         category="model_checking", design_ref="DESIGN.md §4 C17",
         technique="explicit-state BFS of event-queue poll rounds through the real MITMProxyEventManager.pump_proxy_event (hmc.explore.bfs, canonical-state dedup, "
@@ -204,7 +205,8 @@ CHECKS = {
              "after it. Quick depth 4 / 3 deviations; thorough depth 6 (delivery) and depth 4 (region announcements).",
         note="In-memory queues with pickle round trip, virtual loop, MockTransport; simulator ids strictly increase, events never re-sent, no empty event list, events "
              "well-formed; a stale poll repeats the immediately preceding ack; no two simulators share a seed URL; teardown may drop pending injections; injected events "
-             "are only required to keep FIFO order among themselves; the wake-up PlacesQuery is observed, not demanded."),
+             "are only required to keep FIFO order among themselves; the wake-up PlacesQuery is observed, not demanded; 2-3 regions with independent event queues; "
+             "announcements may reuse a known handle at a new address or a known address with a new handle."),
     "C19": dict(
         category="model_checking", design_ref="DESIGN.md §4 C19",
         technique="explicit-state BFS with deviation bounding over the real client endpoint under a virtual loop/clock (history-replay successors, canon-deduplicated "
